@@ -553,7 +553,7 @@ fn compute_intersection_residue_class(
             + ((base_left % lcm) / gcd * (right_inverse * stride_right)) % lcm // = base_left / gcd * gcd (modulo stride_left)
             + base_left % gcd; // = base_left % gcd = base_right % gcd
                                // Ensure that the residue class is not negative
-        let residue_class = (residue_class + lcm) % lcm;
+        let residue_class = ((residue_class % lcm) + lcm) % lcm;
 
         // Since we cannot rule out integer overflows for all possible inputs,
         // we need to check the correctness of the result.
